@@ -6,6 +6,7 @@ use std::rc::Rc;
 use std::sync::Arc;
 use unimock::*;
 
+//@trait-begin Recv
 #[unimock(api = RecvMock)]
 pub trait Recv {
     fn by_ref(&self, a: u8, b: u16) -> u32;
@@ -15,7 +16,9 @@ pub trait Recv {
     fn by_arc(self: Arc<Self>, a: u8, b: u16) -> u32;
     fn by_pin(self: Pin<&mut Self>, a: u8, b: u16) -> u32;
 }
+//@trait-end Recv
 
+//@trait-begin Param
 #[unimock(api = ParamMock)]
 pub trait Param {
     fn zero(&self) -> u8;
@@ -27,13 +30,17 @@ pub trait Param {
     fn borrow_ret(&self, a: u8) -> &u8;
     fn opt_borrow_ret(&self, a: u8, b: u8) -> Option<&str>;
 }
+//@trait-end Param
 
+//@trait-begin Gen
 #[unimock(api = GenMock)]
 pub trait Gen<T: 'static> {
     fn g(&self, t: T, k: u8) -> T;
     fn h(&mut self, k: u8, t: T) -> u8;
 }
+//@trait-end Gen
 
+//@trait-begin Both
 #[unimock(api = BothMock, unmock_with = [real_both, _, real_c(a), real_mutm, _, _])]
 pub trait Both {
     fn both(&self, a: u8) -> u8 {
@@ -60,3 +67,20 @@ pub fn real_c(a: u8) -> u8 {
 pub fn real_mutm(_: &mut impl Both, a: u8) -> u8 {
     a
 }
+//@trait-end Both
+
+//@trait-begin Shift
+#[unimock(api = ShiftMock, unmock_with = [_, real_shift_a, _, real_shift_b])]
+pub trait Shift {
+    fn s0(&self, a: u8) -> u8;
+    fn s1(&self, a: u8) -> u8;
+    fn s2(&self, a: u8) -> u8;
+    fn s3(&self, a: u8) -> u8;
+}
+pub fn real_shift_a(_: &impl Shift, a: u8) -> u8 {
+    a
+}
+pub fn real_shift_b(_: &impl Shift, a: u8) -> u8 {
+    a.wrapping_add(1)
+}
+//@trait-end Shift
